@@ -45,19 +45,20 @@ Theorem C12_size_hint_sound :
     map fst (snd (page_hints d)) = page_iter d.
 Proof. exact page_hints_ok. Qed.
 
-(* (5) ... and on a represented tree whose sections carry the right Count the fresh iterator announces
-   exactly the number of pages.  |objects| <= usize::MAX is guaranteed by the type of objects.len().
-   Partial: exactness after k yielded pages (count-down n-1 .. 0) is checked on the implementation for every
-   generated well-formed tree with exact counts, not proved. *)
-Theorem C12_size_hint_exact_partial :
+(* (5) ... and on a represented tree (distinct nodes, height within the limit) whose sections all carry the
+   right Count, the lower bound is exact at every observed state: the fresh iterator announces n pages and
+   after the k-th page n-k (count-down n, n-1, .., 0).  |objects| <= usize::MAX is guaranteed by the type
+   of objects.len(). *)
+Theorem C12_size_hint_countdown :
   forall d cat i g ks,
     catalog d = Some cat ->
     dict_get cat K_Pages = Some (ORef i g) ->
     tree_wf d (PNode (i, g) ks) ->
     Forall (counts_exact (d_objects d)) ks ->
+    (N.of_nat (height (PNode (i, g) ks)) <= PAGE_TREE_DEPTH_LIMIT + 1)%N ->
     (N.of_nat (length (d_objects d)) <= USIZE_MAX)%N ->
-    fst (fst (page_hints d)) = N.of_nat (length (leaves (PNode (i, g) ks))).
-Proof. exact hint_exact_initial. Qed.
+    fst (fst (page_hints d)) :: lowers (snd (page_hints d)) = countdown (S (length (leaves (PNode (i, g) ks)))).
+Proof. exact hint_countdown. Qed.
 
 Theorem C12_example_size_hint :
   exists cat, catalog ex_doc_counts = Some cat /\ dict_get cat K_Pages = Some (ORef 2 0) /\
@@ -79,6 +80,6 @@ Print Assumptions C12_dfs.
 Print Assumptions C12_numbered.
 Print Assumptions C12_total.
 Print Assumptions C12_size_hint_sound.
-Print Assumptions C12_size_hint_exact_partial.
+Print Assumptions C12_size_hint_countdown.
 Print Assumptions C12_example_size_hint.
 Print Assumptions C12_example.
